@@ -94,17 +94,12 @@ func (a obsT) equal(b obsT) bool {
 	return true
 }
 
+// a byte string as one hexadecimal numeral with a leading 1 (decoded by Run.b)
 func coqB(b []byte) string {
-	var sb strings.Builder
-	sb.WriteString("[")
-	for i, x := range b {
-		if i > 0 {
-			sb.WriteString(";")
-		}
-		fmt.Fprintf(&sb, "%d", x)
+	if len(b) == 0 {
+		return "[]"
 	}
-	sb.WriteString("]")
-	return sb.String()
+	return "(b 0x1" + hex.EncodeToString(b) + ")"
 }
 func coqV(b []byte) string {
 	if b == nil {
@@ -373,6 +368,28 @@ func (cs *caseT) describe() map[string]interface{} {
 	return map[string]interface{}{"stream": cs.stream, "ops": ops, "memdb": om, "leveldb": ol}
 }
 
+// compact replayable description for the case index (observations are recomputed on replay)
+func (cs *caseT) index() map[string]interface{} {
+	var ops []string
+	for _, o := range cs.ops {
+		t := kindName[o.kind]
+		if o.sync {
+			t += "-sync"
+		}
+		switch o.kind {
+		case kGet, kDel, kBDel, kIterPrefix:
+			t += fmt.Sprintf(" %v", hx(o.k))
+		case kPut, kBSet, kIterStart:
+			t += fmt.Sprintf(" %v %v", hx(o.k), hx(o.v))
+		}
+		if o.reopen {
+			t = "(reopen leveldb) " + t
+		}
+		ops = append(ops, t)
+	}
+	return map[string]interface{}{"stream": cs.stream, "ops (hex; <nil> = Go nil)": ops}
+}
+
 func (cs *caseT) coqOps() string {
 	var s []string
 	for _, o := range cs.ops {
@@ -474,12 +491,12 @@ func (g *gen) value() []byte {
 	case x < 30:
 		g.c.Stats.Count("value.empty")
 		return []byte{}
-	case x < 97:
+	case x < 98:
 		g.c.Stats.Count("value.short")
 		return g.r.Bytes(1 + g.r.Intn(4))
 	}
 	g.c.Stats.Count("value.long")
-	return g.r.Bytes(200 + g.r.Intn(200))
+	return g.r.Bytes(40 + g.r.Intn(60))
 }
 
 func (g *gen) prefix() []byte {
@@ -808,10 +825,9 @@ func runC20(c *Ctx) error {
 	g := &gen{c: c, r: c.Rng}
 
 	record := func(cs *caseT, toModel bool) {
-		desc := cs.describe()
 		bad := cs.oracle()
 		if bad != "" {
-			c.Stats.Fail(bad, desc)
+			c.Stats.Fail(bad, cs.describe())
 			c.Stats.Count("oracle.fail")
 		}
 		nontrivial := false
@@ -852,7 +868,7 @@ func runC20(c *Ctx) error {
 			} else {
 				id = c.Cases.Add("agree2 "+cs.coqOps()+" "+coqObs(cs.om)+" "+coqObs(cs.ol), "true")
 			}
-			c.Stats.CaseIndex[fmt.Sprint(id)] = desc
+			c.Stats.CaseIndex[fmt.Sprint(id)] = cs.index()
 			c.Stats.Count("model_evaluated")
 		}
 	}
